@@ -990,6 +990,11 @@ def generate(repo, template, mode=None, isolate=False):
         try:
             r = extract_fn(repo, blk, meta, mode)
         except X.LostAnchor as e:
+            if 'optional' in blk.flags and re.search(r'fn \S+ found (0 times|in 0 impl blocks)', str(e)):
+                # a function the code may or may not have (a trait method with a default, e.g. SeqAccess::size_hint): absent, the default is in force and nothing is to be verified;
+                # present, its body is checked against the contract stated here
+                types.append(dict(name='optional fn %s' % blk.kv.get('name'), log=[('S', 'optional fn %s absent in %s: the trait default is in force, nothing emitted' % (blk.kv.get('name'), blk.kv.get('file')), 0)], hash='', file=blk.kv.get('file'), line=0, lines=[]))
+                continue
             if not isolate:
                 raise
             labs = []
